@@ -337,10 +337,21 @@ func damagedInputs(e *env) []func() {
 		}},
 	}
 	for _, kt := range []string{"X", "E"} {
-		for _, size := range []int{0, 100, 65536, 131072, 140000} {
+		// 1 MiB, 3 MiB and just over 16 MiB: sizes at which a tool may switch
+		// strategy (pre-allocation, read-ahead, limits)
+		for _, size := range []int{0, 100, 65536, 131072, 140000, 1<<20 + 7, 3 << 20, 16<<20 + 70000} {
 			for _, dm := range dmgs {
 				for _, pre := range []bool{false, true} {
 					kt, size, dm, pre := kt, size, dm, pre
+					if size >= 1<<20 {
+						if kt != "X" || dm.header || (pre && size != 3<<20) {
+							continue
+						}
+						if size > 16<<20 && !r.Thorough() && dm.name != "payload-truncated-1" && dm.name != "payload-flip-chunk1" && dm.name != "payload-trailing-1-byte" {
+							continue
+						}
+						r.Count("damaged_inputs_of_1MiB_and_more", 1)
+					}
 					if !r.Thorough() && kt == "E" && (size == 100 || size == 65536 || pre) {
 						continue
 					}
